@@ -15,7 +15,16 @@ for id in $IDS; do
   wt=/tmp/seedwt/$id
   rm -rf "$wt"; git -C /repo worktree prune
   git -C /repo worktree add --detach "$wt" HEAD -q || continue
-  if ! git -C "$wt" apply /verif/seeded/$id/patch.diff; then echo "$id: patch does not apply"; git -C /repo worktree remove --force "$wt"; continue; fi
+  base=HEAD
+  if ! git -C "$wt" apply /verif/seeded/$id/patch.diff 2>/dev/null; then
+    # the patch was written against an earlier /repo commit (before a later fix: commit touched the
+    # same lines): evaluate it on that commit instead
+    git -C /repo worktree remove --force "$wt"
+    base=e79d663
+    git -C /repo worktree add --detach "$wt" $base -q || continue
+    if ! git -C "$wt" apply /verif/seeded/$id/patch.diff; then echo "$id: patch does not apply"; git -C /repo worktree remove --force "$wt"; continue; fi
+  fi
+  echo "$base" > /verif/seeded/$id/base.txt
   /verif/tools/seedeval.sh "$wt" > /verif/seeded/$id/detected.txt 2>&1
   echo "$id: $(grep -c VIOLATION /verif/seeded/$id/detected.txt) checks alarm: $(grep VIOLATION /verif/seeded/$id/detected.txt | cut -d' ' -f1 | tr '\n' ' ')"
   git -C /repo worktree remove --force "$wt"
